@@ -1,4 +1,6 @@
+mod c01;
 mod c09;
+mod live;
 mod c12;
 mod c13;
 mod c15;
@@ -63,6 +65,7 @@ fn main() {
         ("gen", "C12") => c12::generate("C12", seed, &tier, &mut out),
         ("gen", "C06") => c12::generate("C06", seed, &tier, &mut out),
         ("gen", "C20") => c12::generate("C20", seed, &tier, &mut out),
+        ("gen", "C01") => c01::generate("C01", seed, &tier, &mut out),
         ("gen", "C15") => c15::generate(seed, &tier, &mut out),
         ("gen", "C13") => c13::generate(seed, &tier, &mut out),
         ("gen", "C09") => c09::generate("C09", seed, &tier, &mut out),
